@@ -24,7 +24,7 @@ ASSUMPTIONS = [
     "expressions are pure and total, so hoisting or re-ordering an evaluation is unobservable; values flowing in/out and control flow are what the output depends on",
     "stdout of the module (results of every call, the global and the attribute) is the observable behaviour",
 ]
-BUDGET = {"quick": (320, 240), "thorough": (8000, 2700)}
+BUDGET = {"quick": (1600, 240), "thorough": (16000, 2700)}
 
 
 def strategy(tier):
@@ -75,6 +75,10 @@ def regions(case):
                 out.append(("stmts", off(stmts[i].lineno, stmts[i].col_offset), off(stmts[j].end_lineno, stmts[j].end_col_offset), {"lines": (stmts[i].lineno, stmts[j].end_lineno)}))
     for node in ast.walk(host):
         if isinstance(node, (ast.BinOp, ast.Call, ast.IfExp, ast.Compare, ast.BoolOp, ast.Attribute)) and isinstance(getattr(node, "ctx", ast.Load()), ast.Load):
+            # print(...) is the one impure expression of the fragment: evaluating it once instead of twice (similar=True) or at
+            # another moment is observable, and nobody asks to extract it as a value - not part of the domain
+            if isinstance(node, ast.Call) and isinstance(node.func, ast.Name) and node.func.id == "print":
+                continue
             out.append(("expr", off(node.lineno, node.col_offset), off(node.end_lineno, node.end_col_offset), {"lines": (node.lineno, node.end_lineno), "type": type(node).__name__}))
     return out, host
 
@@ -154,21 +158,142 @@ def hazards(src, host, kind, start, end, rname, opts, starts):
                 for ld in names_in[i_ + 1:]:
                     if ld.id == st_n.id and isinstance(ld.ctx, ast.Load) and paths[id(ld)][: len(paths[id(st_n)])] != paths[id(st_n)]:
                         hz.add("read_after_conditional_write_in_region")
-        # loop-carried: the region sits in a loop and writes a variable the loop reads outside the region
-        written = {n.id for n in inside if isinstance(n, ast.Name) and isinstance(n.ctx, ast.Store)}
+        # loop-carried: the region sits in a loop and writes a variable that the loop reads BEFORE the region (i.e. in
+        # the next iteration).  rope does return such a variable when the region itself reads it before writing it
+        # (its loop-depth rule) or when anything after the region reads it; the recorded gap is the rest.
+        aug_targets = {id(a.target) for a in ast.walk(host) if isinstance(a, ast.AugAssign)}
+        eval_key = {}
+        for st_ in ast.walk(host):
+            if isinstance(st_, (ast.Assign, ast.AugAssign, ast.AnnAssign)):
+                for t_ in ast.walk(st_.targets[0] if isinstance(st_, ast.Assign) and len(st_.targets) == 1 else getattr(st_, "target", st_)):
+                    if isinstance(t_, ast.Name) and isinstance(t_.ctx, ast.Store):
+                        eval_key[id(t_)] = off(st_, True)  # a target is bound after the value was evaluated
+        key = lambda n: eval_key.get(id(n), off(n))
+        stores = [n for n in inside if isinstance(n, ast.Name) and isinstance(n.ctx, ast.Store)]
         for loop in ast.walk(host):
             if isinstance(loop, (ast.For, ast.While)) and off(loop) < start and end <= off(loop, True):
-                for n in ast.walk(loop):
-                    if isinstance(n, ast.Name) and isinstance(n.ctx, ast.Load) and n.id in written and id(n) not in inside_ids:
+                for v in sorted({n.id for n in stores}):
+                    read_before_region = any(
+                        isinstance(n, ast.Name) and n.id == v and (isinstance(n.ctx, ast.Load) or id(n) in aug_targets) and id(n) not in inside_ids and off(n) < start
+                        for n in ast.walk(loop)
+                    )
+                    if not read_before_region:
+                        continue
+                    first_store = min(key(n) for n in stores if n.id == v)
+                    read_first_inside = any(
+                        isinstance(n, ast.Name) and n.id == v and ((isinstance(n.ctx, ast.Load) and off(n) < first_store) or id(n) in aug_targets) for n in inside
+                    )
+                    # "read after the region" in rope's sense: walking the text after the region, a read comes before any write
+                    occ_ = []
+                    for n in ast.walk(host):
+                        if isinstance(n, ast.Name) and n.id == v and off(n) >= end:
+                            if id(n) in aug_targets or isinstance(n.ctx, ast.Load):
+                                occ_.append((off(n), 0))
+                            else:
+                                occ_.append((key(n), 1))
+                    read_after = bool(occ_) and min(occ_)[1] == 0
+                    if not read_first_inside and not read_after:
                         hz.add("loop_carried_write")
-    # flow-insensitive "written later": a variable the region writes is stored again and read after the region
+    # flow-insensitive "written later": rope drops a variable the region writes from the returned values when, walking the
+    # text after the region, it meets a write of it before any read.  That is right when the write is a plain statement of
+    # a block enclosing the region (it always runs before the later reads); the recorded gap is a first write that sits
+    # inside a LATER compound statement or a sibling branch (code that need not run) while the variable is read after the region.
     if kind == "stmts":
+        parent, pf = {}, {}
+        for p_ in ast.walk(host):
+            for c_ in ast.iter_child_nodes(p_):
+                parent[id(c_)] = p_
+            for f_ in ("body", "orelse", "finalbody"):
+                sub_ = getattr(p_, f_, None)
+                for c_ in sub_ if isinstance(sub_, list) else []:
+                    if isinstance(c_, ast.stmt):
+                        pf[id(c_)] = (id(p_), f_)
+        region_stmts = [n for n in inside if isinstance(n, ast.stmt) and off(n) == start]
+        chain = set()  # the blocks (parent, field) that enclose the region, innermost first
+        if region_stmts:
+            cur = max(region_stmts, key=lambda n: off(n, True))
+            while id(cur) in pf:
+                chain.add(pf[id(cur)])
+                cur = parent[id(cur)]
+
+        def stmt_of(n):
+            while not isinstance(n, ast.stmt):
+                n = parent[id(n)]
+            return n
+
+        def runs_whenever_region_runs(name_node):
+            """the Name is the target of a plain assignment that is a direct statement of a block enclosing the region"""
+            st_ = stmt_of(name_node)
+            # (id in eval_key: the Name is the assignment's own target, not e.g. a comprehension variable inside its value)
+            return id(name_node) in eval_key and isinstance(st_, (ast.Assign, ast.AugAssign, ast.AnnAssign)) and pf.get(id(st_)) in chain
+
         written = {n.id for n in inside if isinstance(n, ast.Name) and isinstance(n.ctx, ast.Store)}
         later = [n for n in ast.walk(host) if isinstance(n, ast.Name) and off(n) >= end]
-        for v in written:
-            if any(n.id == v and isinstance(n.ctx, ast.Store) for n in later) and any(n.id == v and isinstance(n.ctx, ast.Load) for n in later):
+        for v in sorted(written):
+            occ = []
+            for n in later:
+                if n.id != v:
+                    continue
+                if id(n) in aug_targets:
+                    occ.append((off(n), 0, "r", n))
+                    occ.append((key(n), 1, "w", n))
+                else:
+                    occ.append((key(n), 1 if isinstance(n.ctx, ast.Store) else 0, "w" if isinstance(n.ctx, ast.Store) else "r", n))
+            if not occ or not any(o[2] == "r" for o in occ):
+                continue
+            first = min(occ, key=lambda o: (o[0], o[1]))
+            if first[2] == "w" and not runs_whenever_region_runs(first[3]):
                 hz.add("returned_variable_rewritten_later")
+            # a variable the region writes only conditionally (and does not read first) is passed IN when some earlier line
+            # writes it, so that the old value can be returned; "earlier line writes it" is textual - when that write need
+            # not have run (another branch, a loop that ran zero times) the call reads an unbound local
+            stores_in = [n for n in inside if isinstance(n, ast.Name) and n.id == v and isinstance(n.ctx, ast.Store)]
+            region_top = [n for n in inside if isinstance(n, ast.stmt) and pf.get(id(n)) in chain]
+            unconditional = any(id(n) in eval_key and stmt_of(n) in region_top and isinstance(stmt_of(n), (ast.Assign, ast.AugAssign, ast.AnnAssign)) for n in stores_in)
+            if unconditional:
+                continue
+            before = [n for n in ast.walk(host) if isinstance(n, ast.Name) and n.id == v and isinstance(n.ctx, ast.Store) and off(n) < start]
+            params = {a.arg for a in host.args.args + host.args.kwonlyargs + host.args.posonlyargs}
+            enclosing_for_targets = {
+                t.id
+                for lp in ast.walk(host)
+                if isinstance(lp, ast.For) and off(lp) < start and end <= off(lp, True)
+                for t in ast.walk(lp.target)
+                if isinstance(t, ast.Name)
+            }
+            definitely = v in params or v in enclosing_for_targets or any(runs_whenever_region_runs(n) for n in before)
+            if before and not definitely:
+                hz.add("conditionally_assigned_variable_passed_in")
     return hz
+
+
+def must_be_refused(host, start, end, starts):
+    """the statement region contains a break / continue whose loop lies (partly) outside it: it cannot become a function.
+    (a break / continue in the ELSE clause of a loop belongs to the enclosing loop)"""
+
+    def off(n, endp=False):
+        return starts[(n.end_lineno if endp else n.lineno) - 1] + (n.end_col_offset if endp else n.col_offset)
+
+    found = []
+
+    def walk(stmts, loop):
+        for st_ in stmts:
+            if isinstance(st_, (ast.Break, ast.Continue)):
+                if start <= off(st_) and off(st_, True) <= end and not (loop is not None and start <= off(loop) and off(loop, True) <= end):
+                    found.append(st_)
+            elif isinstance(st_, (ast.For, ast.While)):
+                walk(st_.body, st_)
+                walk(st_.orelse, loop)
+            elif isinstance(st_, (ast.FunctionDef, ast.ClassDef)):
+                continue
+            else:
+                for f_ in ("body", "orelse", "finalbody"):
+                    sub_ = getattr(st_, f_, None)
+                    if isinstance(sub_, list):
+                        walk(sub_, loop)
+
+    walk(host.body, None)
+    return bool(found)
 
 
 def evaluate(case, env):
@@ -224,6 +349,20 @@ def evaluate(case, env):
                 refac = ExtractVariable if rname == "variable" else ExtractMethod
                 label = "%s:%s" % (rname, kind)
                 sub = {"kind": kind, "region": [start, end], "what": rname, "opts": opts, "text": src[start:end][:80]}
+            if kind == "stmts" and rname == "method" and must_be_refused(host, start, end, starts_):
+                # independent of every data-flow hazard: the only right answer is a refusal
+                out.evals += 1
+                out.labels["must_refuse:unbound_break_or_continue"] += 1
+                try:
+                    refac(project, res, start, end).get_changes("extracted", **opts)
+                except rex.RopeError:
+                    out.refused += 1
+                    out.nontrivial.add("must_refuse:%d" % idx)
+                except Exception as e:
+                    out.violation("C03:internal_error:%s:%s:%s" % (type(e).__name__, rname, kind), "%r on %r with %s" % (e, src[start:end][:60], opts), sub)
+                else:
+                    out.violation("C03:accepted_region_with_unbound_break_or_continue", "extract method accepted %r with %s" % (src[start:end][:200], opts), sub)
+                continue
             skip = False
             for hz in sorted(hazards(src, host, kind, start, end, rname, opts, starts_)):
                 out.labels["hazard:" + hz] += 1
